@@ -1561,8 +1561,16 @@ func genSchema(r *rng.R, o genOpts) string {
 			if d.kind == "struct" {
 				if rootSet[d.name] {
 					w.tok("root")
+					if w.odd && r.Chance(1, 5) {
+						// both modifiers, in this order (the parser takes at most one modifier: a
+						// syntax error today; if it is ever accepted, the printed form must parse)
+						dictMod()
+					}
 				} else if r.Chance(1, 4) {
 					dictMod()
+					if w.odd && r.Chance(1, 8) {
+						w.tok("root") // both modifiers, the other order
+					}
 				}
 			}
 			w.glue("{")
